@@ -16,9 +16,9 @@ import (
 	"strings"
 
 	"github.com/EliCDavis/polyform/formats/obj"
+	"github.com/EliCDavis/polyform/modeling"
 	"github.com/EliCDavis/vector/vector2"
 	"github.com/EliCDavis/vector/vector3"
-	"github.com/EliCDavis/polyform/modeling"
 
 	"verif/harness/core"
 	"verif/harness/meshlib"
